@@ -96,6 +96,7 @@ func run(c *fw.Ctx, idx int) {
 		armed bool
 	}
 	callN := map[string]uint64{}
+	blockers := map[string]chan struct{}{}
 	var step int64
 	var noHold int32
 	healthy := int32(0)
@@ -117,6 +118,9 @@ func run(c *fw.Ctx, idx int) {
 				d.Err = fmt.Errorf("ipfs model: scripted failure of the held unpin")
 			}
 			return d
+		}
+		if ch := blockers[ks]; ch != nil && call.Op == "pin" {
+			return sim.Decision{Hold: ch} // a helper pin that keeps a worker busy
 		}
 		k := call.Op + ks
 		callN[k]++
@@ -153,6 +157,7 @@ func run(c *fw.Ctx, idx int) {
 
 	// last instruction per cid, and the pin recorded in the shared pinset
 	last := map[int]instr{}
+	callsAtInstr := map[int]int{} // daemon call log length when the CID's last instruction was given
 	curMode := map[int]api.PinMode{}
 	tracked := map[int]bool{}
 	var trace []string
@@ -241,6 +246,64 @@ func run(c *fw.Ctx, idx int) {
 			c.Cover(fmt.Sprintf("pair/remote-track+untrack/arrived=%v/fails=%v", arrived, sp.fail))
 			continue
 		}
+		// a queued re-pin overtaken by a re-allocation: the daemon already holds the item,
+		// every pin worker is busy with something else, the item is tracked again for this
+		// peer (the operation waits in the queue) and then moves to another peer
+		if in.c != 3 && r.Chance(1, 14) && atomic.LoadInt32(&healthy) == 0 && !pendingNow && rig.IPFS.Inflight() == 0 {
+			rig.IPFS.SetPin(ci, "recursive")
+			var helpers []cid.Cid
+			mu.Lock()
+			for w := 0; w < workers; w++ {
+				h := gen.UCid(20 + w)
+				helpers = append(helpers, h)
+				blockers[h.KeyString()] = make(chan struct{})
+			}
+			mu.Unlock()
+			busy := true
+			for hi, h := range helpers {
+				hp := api.PinCid(h)
+				hp.ReplicationFactorMin, hp.ReplicationFactorMax = -1, -1
+				rig.St.Add(ctx, hp)
+				if rig.T.Track(ctx, hp) != nil {
+					busy = false
+				}
+				// one after the other: the queue may hold a single operation
+				for w := 0; w < 3000 && busy && rig.IPFS.Inflight() < hi+1; w++ {
+					time.Sleep(time.Millisecond)
+				}
+			}
+			busy = busy && rig.IPFS.Inflight() >= workers
+			local := api.PinCid(ci)
+			local.Name = fmt.Sprintf("i%d-local", i)
+			local.ReplicationFactorMin, local.ReplicationFactorMax = 1, 2
+			local.Allocations = []peer.ID{self, other}
+			rig.St.Add(ctx, local)
+			qerr := rig.T.Track(ctx, local)
+			queued := rig.T.Status(ctx, ci).Status
+			remote := api.PinCid(ci)
+			remote.Name = fmt.Sprintf("i%d-remote", i)
+			remote.ReplicationFactorMin, remote.ReplicationFactorMax = 1, 1
+			remote.Allocations = []peer.ID{other}
+			rig.St.Add(ctx, remote)
+			atomic.StoreInt32(&noHold, 1) // the best-effort unpin runs in the caller
+			callsAtInstr[in.c] = rig.IPFS.NCalls()
+			rerr := rig.T.Track(ctx, remote)
+			atomic.StoreInt32(&noHold, 0)
+			mu.Lock()
+			for k, ch := range blockers {
+				close(ch)
+				delete(blockers, k)
+			}
+			mu.Unlock()
+			tracked[in.c] = true
+			curMode[in.c] = api.PinModeRecursive
+			in.kind, in.mode = "track-remote", api.PinModeRecursive
+			last[in.c] = in
+			trace = append(trace, fmt.Sprintf("%d c%d held by the daemon; workers busy=%v; track-local -> %v (status %s); track-remote -> %v", i, in.c, busy, qerr, queued, rerr))
+			c.Journal("%s", trace[len(trace)-1])
+			c.Cover(fmt.Sprintf("construct/queued-repin-then-remote/busy=%v/queued=%v", busy, queued == api.TrackerStatusPinQueued))
+			continue
+		}
 		switch {
 		case strings.HasPrefix(in.kind, "track"):
 			pin := api.PinCid(ci)
@@ -273,6 +336,7 @@ func run(c *fw.Ctx, idx int) {
 			if in.kind == "track-remote" {
 				atomic.StoreInt32(&noHold, 1) // the best-effort unpin runs in the caller
 			}
+			callsAtInstr[in.c] = rig.IPFS.NCalls()
 			err = rig.T.Track(ctx, pin)
 			if in.kind == "track-remote" {
 				atomic.StoreInt32(&noHold, 0)
@@ -362,7 +426,24 @@ func run(c *fw.Ctx, idx int) {
 					c.Violation("C05/"+phase+"/meta-pinned", "a meta entry was pinned on the daemon", detail)
 				}
 			case "track-remote":
-				// best effort: no demand
+				// best effort: a daemon failure is tolerated, not trying is not. If the daemon
+				// still holds the item, an unpin for it must have ended (whatever its outcome)
+				// after the instruction was given
+				if held == "" || exact {
+					continue
+				}
+				attempted := false
+				calls := rig.IPFS.Calls()
+				for _, call := range calls[callsAtInstr[ci]:] {
+					if call.Op == "unpin" && call.Cid.Equals(cids[ci]) {
+						attempted = true
+					}
+				}
+				c.Eval(fmt.Sprintf("%s/moved-elsewhere-still-held/unpin-attempted=%v", phase, attempted))
+				if !attempted {
+					c.Violation(fmt.Sprintf("C05/%s/moved-elsewhere/no-unpin-attempted/held=%s/status=%s", phase, held, st),
+						fmt.Sprintf("c%d moved to other peers, the daemon still holds it (%s) and no unpin reached the daemon after that instruction", ci, held), detail)
+				}
 			}
 		}
 	}
